@@ -38,6 +38,9 @@ def _drive(args):
             blocked = bool(mode & 1)
             api = 'func' if mode & 2 else 'class'
             recs = [vbsc.rec_content(r, n, vbsc.STYLES[(n + mode) % len(vbsc.STYLES)])]
+        elif kind == 'fixedlist':
+            blocked, api = True, 'class'
+            recs = [vbsc.rec_content(r, n_, 'code', i * 97) for i, n_ in enumerate(a)]
         else:
             blocked = bool(tid & 1)
             api = 'func' if tid % 5 == 0 else ('mixed' if tid % 5 == 2 else 'class')
@@ -52,6 +55,23 @@ def _drive(args):
                 recs.append(vbsc.rec_content(r, n, style, off))
                 off += 4 + n
         real = api == 'class' and tid % 7 == 3          # a real file on disk instead of io.BytesIO
+        try:
+            events = None
+            events = _write_and_read(recs, blocked, api, real, tid)
+        except BaseException as ex:  # noqa
+            if max(len(x) for x in recs) > drv.max_vbs_len():
+                continue              # records above the configured maximum: refusing to write them is a don't-care
+            events = [drv.ev('write', len(x), '', x) for x in recs] + [drv.ev('fin', 1), drv.ev('file', 0, '', b'\xff')]
+            events[-1]['_observed'] = drv.exc_outcome(ex)
+        out.append({'tid': tid, 'blk': blocked, 'strict': True, 'loc': False, 'events': events,
+                    '_desc': '%s %s records of lengths %s via %s API%s' % ('blocked' if blocked else 'unblocked', len(recs),
+                                                                           [len(x) for x in recs][:12], api,
+                                                                           ' on a real file' if real else '')})
+    return out
+
+
+def _write_and_read(recs, blocked, api, real, tid):
+    if True:
         if real:
             import os
             import tempfile
@@ -74,11 +94,7 @@ def _drive(args):
                 events.append(drv._err_event(drv.exc_outcome(ex)))
         else:
             events += drv.read_events(data, blocked)[0]
-        out.append({'tid': tid, 'blk': blocked, 'strict': True, 'loc': False, 'events': events,
-                    '_desc': '%s %s records of lengths %s via %s API%s' % ('blocked' if blocked else 'unblocked', len(recs),
-                                                                           [len(x) for x in recs][:12], api,
-                                                                           ' on a real file' if real else '')})
-    return out
+        return events
 
 
 def run(rep, wd, tier, seed):
@@ -95,6 +111,10 @@ def run(rep, wd, tier, seed):
     for _ in range(1500 if tier == 'thorough' else 120):
         jobs.append((tid, 'multi', 0, 0))
         tid += 1
+    for first in (1004, 1008, 2016, 996):
+        for second in (1012, 1013, 1500, 2023, 2024, 2025, 3036):
+            jobs.append((tid, 'fixedlist', (first, second, 600, 5), 1))
+            tid += 1
     parts = core.split(jobs, core.NCPU * (4 if tier == 'thorough' else 1))
     batches = vbsc.parallel(_drive, [(seed, p) for p in parts])
     rep.sample({'trace': batches[0][0]['_desc'], 'events': [e['op'] + ':' + e['out'] for e in batches[0][0]['events']]})
